@@ -440,6 +440,10 @@ def run_case(case: dict) -> dict:
     return res
 
 
+def _gate_timeout(res) -> bool:
+    return any(f['sig'].get('symptom') == 'machinery-raised' and 'SimHang' in str(f.get('observed')) for f in res['findings'])
+
+
 def _pool_run(case):
     try:
         return case, run_case(case)
@@ -482,6 +486,8 @@ def report(ctx, case, res, source):
     ctx.count('awaits+nexts observed', st.get('obs', 0))
     if st.get('d7'):
         ctx.count('runs with a D7 double wake')
+    if st.get('retried_after_gate_timeout'):
+        ctx.count('cases retried after a gate timeout')
     if 'sample' in res:
         ctx.sample(res['sample'])
     bad = False
@@ -525,6 +531,7 @@ def run(ctx: vf.Ctx):
     hard = ctx.n(900, 7200)
     bad = False
     done = 0
+    retry = []
     with mp.get_context('fork').Pool(min(12, os.cpu_count() or 4)) as pool:
         it = pool.imap(_pool_run, cases, chunksize=1)
         while True:
@@ -537,17 +544,56 @@ def run(ctx: vf.Ctx):
                 pool.terminate()
                 break
             src = case.pop('_source', 'generated')
+            if _gate_timeout(res):
+                retry.append((case, src))      # re-run outside the pool; reported only if it reproduces
+                ctx.count('gate timeouts in the pool (re-run sequentially)')
+                done += 1
+                continue
             bad |= report(ctx, case, res, src)
             done += 1
             if time.time() - t0 > budget and done >= min_cases:
                 pool.terminate()
                 break
+    for case, src in retry:
+        bad |= report(ctx, case, run_case(case), src)
     ctx.cov['cases_run'] = done
+    # ---- exhaustive exploration of the MODEL on small scenarios (all schedules, all server assignments):
+    #      validates the theorems' reading of the model and searches for deadlocks (not proved in Coq)
+    scen = {
+        'parent+2 children': '[[sub [[ret 7]]] [sub [[ret 8]]] [aw 0] [aw 1] [ret 1]]',
+        'map of 3 with next-loop': '[[map [[[ret 2]] [[ret 3]] [[ret 4]]]] [na 0] [aw 0] [ret 1]]',
+        'nested submit depth 2': '[[sub [[sub [[ret 3]]] [aw 0] [ret 2]]] [aw 0] [ret 1]]',
+        'map of 2, next then await': '[[map [[[ret 2]] [[ret 3]]]] [nx 0] [aw 0] [ret 1]]',
+    }
+    ks = [2] if ctx.quick() else [2, 3]
+    expl = {}
+    for name, sc in scen.items():
+        for k in ks:
+            for atomic in (1, 0):
+                if k == 3 and 'map of 3' in name and not atomic:
+                    continue
+                line = vf.run_model('worker', ['explore %d %d %s %d' % (atomic, k, sc, ctx.n(300000, 3000000))])[0]
+                cnt = dict((kv.split('=')[0], kv.split('=')[1]) for kv in line.split())
+                expl['%s / k=%d / %s' % (name, k, 'atomic' if atomic else 'as-is')] = line
+                ctx.count('model states explored', int(cnt.get('states', 0)))
+                if cnt.get('truncated') == 'true':
+                    ctx.count('explorations truncated')
+                if int(cnt.get('deadlock', 1)) != 0:
+                    ctx.violation({'call': 'explore', 'symptom': 'deadlock'}, dict(scenario=name, k=k, atomic=atomic, script=sc),
+                                  'every quiescent in-scope error-free state has all tasks finished', line,
+                                  'the model reaches a quiescent state with unfinished tasks', kind='schedule')
+                if atomic and (int(cnt.get('double_wake', 1)) or int(cnt.get('assert_failed', 1))):
+                    ctx.broken_obligation('exhaustive exploration of the atomic model contradicts C07_wake_once', line)
+    ctx.cov['exhaustive_small_scenarios'] = expl
     ctx.cov['corpus_cases'] = ncorpus
     ctx.cov['theorem_coverage'] = dict(
-        proved=['see coq/props/C07.v'],
+        proved=['C07_task_conservation (both variants)', 'C07_slot_values (both variants; await complete and in argument order, next values, client root result)',
+                'C07_next_batches (+_complete)', 'C07_result_deposited_once', 'C07_wake_once (atomic registration)',
+                'C07_wake_once_refuted (code as it is: D7)'],
+        not_proved=['C07_no_deadlock_full (Definition only; oracle + exhaustive model exploration of 4 small scenarios)'],
         correspondence_only=['server relay (schedule_tasks/send_result_down observed, assignment replayed)'],
-        uncovered=['manager topology', 'cancellation (C12)', 'statement interleavings inside receiving-thread handlers'])
+        uncovered=['manager topology', 'cancellation (C12)', 'statement interleavings inside receiving-thread handlers',
+                   'COMMUNICATE / LOG / IMPORTPATH messages'])
     if (ctx.broken or bad) and ctx.broken:
         # something no longer checks: search harder with the directed policy
         extra = make_cases(ctx, 300)
